@@ -572,8 +572,8 @@ def unionAdd : List β → List β → List β
   | _, [] => []
   | u, y :: ys => if y ∈ u then unionAdd u ys else y :: unionAdd (u ++ [y]) ys
 
-theorem vectorUnion_eq (u v2 : List β) : vectorUnion deq u v2 = u ++ unionAdd u v2 := by
-  unfold vectorUnion
+theorem vectorUnionOrig_eq (u v2 : List β) : vectorUnionOrig deq u v2 = u ++ unionAdd u v2 := by
+  unfold vectorUnionOrig
   induction v2 generalizing u with
   | nil => simp [unionAdd]
   | cons y ys ih =>
@@ -619,8 +619,8 @@ theorem unionAdd_spec (u v2 : List β) :
             · exact Or.inr (by simp at h; simp [h])
           · exact Or.inr (List.mem_cons_of_mem _ h)
 
-theorem mem_vectorUnion (a b : List β) (x : β) : x ∈ vectorUnion deq a b ↔ x ∈ a ∨ x ∈ b := by
-  rw [vectorUnion_eq, List.mem_append]
+theorem mem_vectorUnionOrig (a b : List β) (x : β) : x ∈ vectorUnionOrig deq a b ↔ x ∈ a ∨ x ∈ b := by
+  rw [vectorUnionOrig_eq, List.mem_append]
   obtain ⟨h1, -, h3⟩ := unionAdd_spec a b
   constructor
   · rintro (h | h)
@@ -630,23 +630,23 @@ theorem mem_vectorUnion (a b : List β) (x : β) : x ∈ vectorUnion deq a b ↔
     · exact Or.inl h
     · exact h3 x h
 
-theorem isUnion_vectorUnion (a b : List β) : IsUnion deq a b (vectorUnion deq a b) := by
+theorem isUnion_vectorUnionOrig (a b : List β) : IsUnion deq a b (vectorUnionOrig deq a b) := by
   obtain ⟨h1, h2, h3⟩ := unionAdd_spec a b
   unfold IsUnion
   refine ⟨?_, ?_, ?_, ?_, ?_, ?_⟩
-  · intro x hx; simpa using (mem_vectorUnion a b x).mp hx
-  · intro x hx; simpa using (mem_vectorUnion a b x).mpr (Or.inl hx)
-  · intro x hx; simpa using (mem_vectorUnion a b x).mpr (Or.inr hx)
-  · rw [vectorUnion_eq]; simp [listEq_refl]
-  · rw [vectorUnion_eq]; simp only [List.drop_left']
+  · intro x hx; simpa using (mem_vectorUnionOrig a b x).mp hx
+  · intro x hx; simpa using (mem_vectorUnionOrig a b x).mpr (Or.inl hx)
+  · intro x hx; simpa using (mem_vectorUnionOrig a b x).mpr (Or.inr hx)
+  · rw [vectorUnionOrig_eq]; simp [listEq_refl]
+  · rw [vectorUnionOrig_eq]; simp only [List.drop_left']
     unfold NoDup
     exact h2.imp (fun {a b} h => by simpa using h)
-  · rw [vectorUnion_eq]; simp only [List.drop_left']
+  · rw [vectorUnionOrig_eq]; simp only [List.drop_left']
     intro x hx; exact (contains_deq_false a x).mpr (h1 x hx).2
 
-theorem nodup_vectorUnion (a b : List β) (ha : a.Nodup) : (vectorUnion deq a b).Nodup := by
+theorem nodup_vectorUnionOrig (a b : List β) (ha : a.Nodup) : (vectorUnionOrig deq a b).Nodup := by
   obtain ⟨h1, h2, -⟩ := unionAdd_spec a b
-  rw [vectorUnion_eq, List.nodup_append]
+  rw [vectorUnionOrig_eq, List.nodup_append]
   exact ⟨ha, h2, fun x hx y hy hxy => (h1 y hy).2 (hxy ▸ hx)⟩
 
 theorem mem_vectorIntersection (a b : List β) (x : β) : x ∈ vectorIntersection deq a b ↔ x ∈ a ∧ x ∈ b := by
